@@ -1728,10 +1728,15 @@ class Parallel(Logger):
 
                 class _GeneratorExitThread(threading.Thread):
                     def run(self):
-                        _parallel._abort()
-                        if _parallel.return_generator:
-                            _parallel._warn_exit_early()
-                        _parallel._terminate_and_reset()
+                        try:
+                            _parallel._abort()
+                            if _parallel.return_generator:
+                                _parallel._warn_exit_early()
+                            _parallel._terminate_and_reset()
+                        finally:
+                            # Only now can a new call be accepted: it would
+                            # otherwise be aborted by the lines above.
+                            _parallel._running = False
 
                 _GeneratorExitThread(name="GeneratorExitThread").start()
                 return
@@ -1755,8 +1760,8 @@ class Parallel(Logger):
             _remaining_outputs = [] if self._exception else self._jobs
             self._jobs = collections.deque()
             self._jobs_set = set()
-            self._running = False
             if not detach_generator_exit:
+                self._running = False
                 self._terminate_and_reset()
 
         while len(_remaining_outputs) > 0:
